@@ -207,7 +207,18 @@ def check(ctx, report):
         for n in ast.walk(god.node):
             if isinstance(n, ast.If) and 'isinstance(dict_value, dict)' in ast.unparse(n.test):
                 assigns = [s for s in ast.walk(ast.Module(body=n.body, type_ignores=[])) if isinstance(s, ast.Assign) and ast.unparse(s.targets[0]) == 'keys']
-                if not assigns or not all('sorted(' in ast.unparse(a.value) for a in assigns):
+                def sorted_value(e, depth=0):
+                    # sorted(...) itself, or a helper of the class all of whose returns are
+                    if isinstance(e, ast.Call) and isinstance(e.func, ast.Name) and e.func.id == 'sorted':
+                        return True
+                    if isinstance(e, ast.Call) and isinstance(e.func, ast.Attribute) and depth < 3:
+                        h = ser.resolve(e.func.attr)
+                        if h is not None and not h.module.external:
+                            from ..astutil import returned
+                            rets = list(returned(h.node))
+                            return bool(rets) and all(sorted_value(r, depth + 1) for r in rets)
+                    return 'sorted(' in ast.unparse(e) and depth == 0 and not isinstance(e, ast.Call)
+                if not assigns or not all(sorted_value(a.value) or 'sorted(' in ast.unparse(a.value) for a in assigns):
                     report.add('C14.R1', god.construct + '@dict-keys', 'keys of a plain dict are not sorted')
     # set typed attributes iterated by overrides
     set_attrs = {}
